@@ -98,8 +98,9 @@ def make_config(fd, rng, tier, model=None, grid_kind=None, solvable=False, n_ext
     span = float(items[-1] - items[0]) + float(dtv.mean())
     pnames = S.SURVIVAL[model][0]
     shape = tuple(dims.shape)
+    very_long = bool(rng.random() < 0.05) and len(items) <= 60
     cfg = dict(items=items, gclass=gclass, tl=tl, dims=dims, extra=extra_letters, model=model, shape=shape, U=U, tdim=tdim, layout=["C", "C", "F", "time-last"][(len(items) + len(model)) % 4],
-               settings_late=bool((len(items) + len(model)) % 3 == 0), inflow_at=str(rng.choice(["start", "middle", "end"])), n_pts=int(rng.choice([1, 1, 1, 2, 3, 4, 5, 6, 7, 8, 9, 10])) if len(items) <= 60 else int(rng.choice([1, 2])))
+               very_long=very_long, settings_late=bool((len(items) + len(model)) % 3 == 0), inflow_at=str(rng.choice(["start", "middle", "end"])), n_pts=int(rng.choice([1, 1, 1, 2, 3, 4, 5, 6, 7, 8, 9, 10])) if len(items) <= 60 else int(rng.choice([1, 2])))
     # ground-truth parameter values per (cohort, labels)
     lo = max(0.6 * float(dtv.min()), 0.3) if solvable else 0.3 * float(dtv.min())
     truth, given = {}, {}
@@ -119,6 +120,8 @@ def make_config(fd, rng, tier, model=None, grid_kind=None, solvable=False, n_ext
         pshape = tuple(len(d.items) for d in pdims)
         if pn in ("mean", "weibull_scale"):
             vals = rng.uniform(max(lo, 0.5 if solvable else 0.2), max(0.8 * span, lo + 1.0), size=pshape)
+            if very_long:
+                vals = vals * rng.uniform(8.0, 40.0)  # lifetimes far beyond the horizon: every survival share is next to one, outflows are tiny
             if solvable:
                 vals = np.maximum(vals, 1.5 * float(dtv.max()))
             if model == "FixedLifetime" and rng.random() < 0.5:
@@ -126,6 +129,10 @@ def make_config(fd, rng, tier, model=None, grid_kind=None, solvable=False, n_ext
                 vals = np.maximum(np.round(vals * 2) / 2, 0.5)
         elif pn == "std":
             vals = rng.uniform(0.1, 0.8, size=pshape) if (solvable or rng.random() < 0.6) else rng.uniform(0.8, 1.6, size=pshape)  # relative, scaled below
+            if very_long and rng.random() < 0.6:
+                # ... and narrow: the horizon ends 5 to 9 standard deviations before the mean, so that the outflow shares are the far tail
+                # of the distribution (1e-7 ... 1e-19): tiny, but not nothing once multiplied by a large throughput
+                vals = np.full(pshape, 1.0) * (0.9 / float(rng.uniform(5.0, 9.0)))
         else:  # weibull_shape
             vals = rng.uniform(0.5, 5.0, size=pshape)
         if tl in pl and len(pl) > 1 and rng.random() < 0.3:
@@ -181,6 +188,8 @@ def build_lm(fd, cfg, dims=None, late=None):
     for pn, (pl, pdims, vals) in cfg["given"].items():
         if form in ("ndarray", "list"):
             full = np.array(cfg["truth"][pn], dtype=float)  # a plain array of the model's shape carries no labels: position = label
+            if form == "ndarray" and cfg.get("prm_dtype") is not None:
+                full = full.astype(cfg["prm_dtype"])
             kw[pn] = full if form == "ndarray" else full.tolist()
         elif not pl:
             kw[pn] = float(np.asarray(vals))
@@ -367,6 +376,13 @@ def c10_case(rec, hub, rng, tier):
         idm = make_stock(fd, cfg, "InflowDrivenDSM", lm=lm, inflow=x)
         idm.compute()
         R = S.results_of(idm)
+        if rng.random() < 0.3:
+            # a shallow copy of the shared lifetime model, re-parameterised and used in between
+            import copy as _copy
+
+            lm_cp = lm.model_copy() if rng.random() < 0.5 else _copy.copy(lm)
+            lm_cp.set_prms(**{pn: np.array(v) * (1.6 if pn in ("mean", "weibull_scale") else 1.0) for pn, v in cfg["truth"].items()})
+            lm_cp.sf, lm_cp.pdf
         for solver in ("manual", "lapack"):
             for same in (False, True):
                 sd = make_stock(fd, cfg, "StockDrivenDSM", solver=solver, lm=lm if same else build_lm(fd, cfg), stock=R["stock"])
